@@ -3,19 +3,32 @@
    and `Print Assumptions` beneath. *)
 From Coq Require Import ZArith NArith Bool List.
 From PcoreV Require Import Model.Base Model.StringHash Proofs.StringHashProofs.
+From PcoreV Require Model.Coll Proofs.CollProofsKeyed Proofs.CollProofsEq Proofs.CollProofsInv Proofs.CollProofs.
 Import ListNotations.
 
 (* The mutable string-keyed hash (model of hash/stringhash.go, with its index map explicit) behaves,
    for EVERY history of operations over any number of hashes, exactly like the abstract
-   insertion-ordered map: same result of every operation, query or mutation. *)
-Theorem C09_stringhash_refines :
+   insertion-ordered map: same result of every operation, query or mutation.  The operations include
+   ComputeIfAbsent with a mapping function that returns a value, one that panics (the caller recovers: nothing
+   may have changed) and one that re-enters the hash (it puts another key, then returns).
+   ops_ok: a re-entrant mapping function puts a key OTHER than the one being computed; without that guard the
+   statement is false of the model and of the code (open finding compute-producer-puts-same-key, refuted below). *)
+Definition C09_stringhash_statement : Prop :=
   forall ops : list op, snd (run [] ops) = snd (s_run [] ops).
+Theorem C09_stringhash_refines :
+  forall ops : list op, ops_ok ops = true -> snd (run [] ops) = snd (s_run [] ops).
 Proof. exact stringhash_refines. Qed.
 Print Assumptions C09_stringhash_refines.
 
+Theorem C09_compute_producer_puts_same_key_refuted :
+  exists ops, ops_ok ops = false /\
+    snd (run [] ops) = [RObj 0; RVal (Some 6); RKeys [[97%N]; [97%N]]; RVal (Some 6); RKeys [[97%N]]; RBool false].
+Proof. exact compute_producer_puts_same_key_refuted. Qed.
+Print Assumptions C09_compute_producer_puts_same_key_refuted.
+
 (* ... in particular no operation ever hits a Go runtime fault (index out of range). *)
 Theorem C09_stringhash_never_faults :
-  forall ops, forallb (fun o => negb (is_fault o)) (snd (run [] ops)) = true.
+  forall ops, ops_ok ops = true -> forallb (fun o => negb (is_fault o)) (snd (run [] ops)) = true.
 Proof. exact stringhash_never_faults. Qed.
 Print Assumptions C09_stringhash_never_faults.
 
@@ -56,7 +69,7 @@ Print Assumptions C09_frozen_rejects_all_mutation.
 (* Every reachable concrete state satisfies the index/entries coupling invariant `rel`
    (index k = position of k in entries, keys unique). *)
 Theorem C09_stringhash_invariant :
-  forall ops, exists sp, hrel (fst (run [] ops)) sp.
+  forall ops, ops_ok ops = true -> exists sp, hrel (fst (run [] ops)) sp.
 Proof. exact stringhash_inv. Qed.
 Print Assumptions C09_stringhash_invariant.
 
@@ -68,3 +81,247 @@ Example C09_nonvacuous :
      RVal (Some 3); RKeys [[98]%N; [99]%N]; RUnit; RFrozen; RObj 1; RObj 2;
      RPairs [([98]%N, 2); ([99]%N, 3)]].
 Proof. vm_compute. reflexivity. Qed.
+
+(* ... and one with the three kinds of mapping function: a panic leaves the hash as it was (the key can still be
+   computed afterwards), a re-entrant one puts its key first. *)
+Example C09_compute_nonvacuous :
+  ops_ok [ONew; OPut 0 [97]%N 1; OComputePanic 0 [98]%N; OIncludes 0 [98]%N; OLen 0;
+          OComputePut 0 [98]%N 2 [99]%N 3; OPairs 0; OGet 0 [98]%N; ODelete 0 [99]%N; OGet 0 [98]%N;
+          OComputePanic 0 [97]%N] = true /\
+  snd (run [] [ONew; OPut 0 [97]%N 1; OComputePanic 0 [98]%N; OIncludes 0 [98]%N; OLen 0;
+               OComputePut 0 [98]%N 2 [99]%N 3; OPairs 0; OGet 0 [98]%N; ODelete 0 [99]%N; OGet 0 [98]%N;
+               OComputePanic 0 [97]%N])
+  = [RObj 0; RPut None false; RPanic; RBool false; RInt 1; RVal (Some 2);
+     RPairs [([97]%N, 1); ([99]%N, 3); ([98]%N, 2)]; RVal (Some 2); RVal (Some 3); RVal (Some 2); RVal (Some 1)].
+Proof. vm_compute. auto. Qed.
+
+(* ================================================================================================== *)
+(* Array / Hash half.  The model is Model/Coll.v: `step pool op` is the result of one List / OrderedMap operation
+   on the values of the pool, `pool_after pool ops` the pool after a history (every step appends its result).
+   wf_pv p: every hash anywhere inside p has pairwise non-equal keys (and p holds no marker of a defective
+   snapshot); lits_ok ops: the literals a history starts from (OLit / OBuild / OParse) are well-formed.
+   The abstract specification (Proofs/CollProofs.v): a Hash is an association list with unique keys —
+   spec_get = first match, spec_delete = filter, spec_merge = replace in place / append new in argument order. *)
+Module CollHalf.
+Import Coll CollProofsKeyed CollProofsEq CollProofsInv CollProofs.
+Local Open Scope nat_scope.
+
+(* Value equality (Equals of Array / Hash / HashEntry / scalars; also the hash-key equality) is an equivalence
+   relation on the well-formed values: "keyed by value equality" means something. *)
+Theorem C09_veq_reflexive : forall a, wf_pv a = true -> veq a a = true.
+Proof. exact veq_refl. Qed.
+Print Assumptions C09_veq_reflexive.
+
+Theorem C09_veq_symmetric : forall a b, wf_pv a = true -> wf_pv b = true -> veq a b = true -> veq b a = true.
+Proof. exact veq_sym. Qed.
+Print Assumptions C09_veq_symmetric.
+
+Theorem C09_veq_transitive : forall a b c, wf_pv a = true -> wf_pv b = true -> wf_pv c = true ->
+  veq a b = true -> veq b c = true -> veq a c = true.
+Proof. exact veq_trans. Qed.
+Print Assumptions C09_veq_transitive.
+
+(* ... and not outside them: a hash that repeats a key equals a hash that does not equal it *)
+Theorem C09_veq_not_symmetric_refuted : exists a b, veq a b = true /\ veq b a = false /\ wf_pv a = false.
+Proof. exact veq_not_symmetric_refuted. Qed.
+Print Assumptions C09_veq_not_symmetric_refuted.
+
+(* THE INVARIANT, for all histories: every value a history ever produces is well-formed; in particular no hash
+   ever holds two equal keys, at any depth (inside arrays, hashes, entries). *)
+Theorem C09_no_hash_holds_two_equal_keys : forall ops, lits_ok ops = true ->
+  Forall (fun p => wf_pv p = true) (pool_after [] ops).
+Proof. exact history_invariant. Qed.
+Print Assumptions C09_no_hash_holds_two_equal_keys.
+
+Theorem C09_no_two_equal_keys_top : forall ops i es, lits_ok ops = true ->
+  pool_at (pool_after [] ops) i = PHash es -> nodup_keys (map fst es) = true.
+Proof. exact no_two_equal_keys. Qed.
+Print Assumptions C09_no_two_equal_keys_top.
+
+(* every single operation keeps it (from any well-formed pool) *)
+Theorem C09_every_operation_keeps_keys_unique : forall pool o,
+  Forall (fun p => wf_pv p = true) pool -> lit_ok o = true -> wf_pv (val_of (step pool o)) = true.
+Proof. exact step_wf. Qed.
+Print Assumptions C09_every_operation_keeps_keys_unique.
+
+(* The unguarded statement is false of the model and of the code (open finding literal-repeated-key): literal
+   text that repeats a key gives a hash with both entries; Get answers with the last one (2), Delete leaves the
+   first one (Includes is still true afterwards). *)
+Definition C09_statement : Prop :=
+  forall ops, Forall (fun p => wf_pv p = true) (pool_after [] ops).
+Theorem C09_literal_repeated_key_refuted :
+  exists ops es, lits_ok ops = false /\
+    pool_at (pool_after [] ops) 0 = PHash es /\ nodup_keys (map fst es) = false /\
+    pool_at (pool_after [] ops) 2 = PInt 2 /\ pool_at (pool_after [] ops) 4 = PBool true.
+Proof. exact literal_repeated_key_refuted. Qed.
+Print Assumptions C09_literal_repeated_key_refuted.
+
+(* REFINEMENT, for all histories: on a hash receiver the model's index-style operations compute the abstract
+   association-list functions.  Stated for any well-formed pool; C09_no_hash_holds_two_equal_keys supplies the
+   hypothesis for every pool a history reaches (C09_hash_operations_all_histories below). *)
+Theorem C09_hash_operations_refine_association_list : forall pool r x es,
+  Forall (fun p => wf_pv p = true) pool -> pool_at pool r = PHash es ->
+  step pool (ODelete r x) = RVal (PHash (spec_delete es (pool_at pool x))) /\
+  (forall ks, elems (pool_at pool x) = Some ks ->
+     step pool (ODeleteAll r x) = RVal (PHash (spec_delete_all es ks))) /\
+  (forall oh, pool_at pool x = PHash oh ->
+     step pool (OMerge r x) = RVal (PHash (spec_merge es oh)) /\
+     step pool (OAddAll r x) = RVal (PHash (spec_merge es oh))) /\
+  (forall k v, pool_at pool x = PEntry k v \/ pool_at pool x = PArr [k; v] ->
+     step pool (OAdd r x) = RVal (PHash (spec_merge es [(k, v)]))) /\
+  step pool (OGet r x) = RVal (or_undef (spec_get es (pool_at pool x))) /\
+  step pool (OIncludes r x) = RVal (PBool (spec_has es (pool_at pool x))).
+Proof. exact hash_step_spec. Qed.
+Print Assumptions C09_hash_operations_refine_association_list.
+
+Theorem C09_hash_operations_all_histories : forall ops r x es, lits_ok ops = true ->
+  let pool := pool_after [] ops in
+  pool_at pool r = PHash es ->
+  step pool (ODelete r x) = RVal (PHash (spec_delete es (pool_at pool x))) /\
+  (forall ks, elems (pool_at pool x) = Some ks ->
+     step pool (ODeleteAll r x) = RVal (PHash (spec_delete_all es ks))) /\
+  (forall oh, pool_at pool x = PHash oh ->
+     step pool (OMerge r x) = RVal (PHash (spec_merge es oh)) /\
+     step pool (OAddAll r x) = RVal (PHash (spec_merge es oh))) /\
+  (forall k v, pool_at pool x = PEntry k v \/ pool_at pool x = PArr [k; v] ->
+     step pool (OAdd r x) = RVal (PHash (spec_merge es [(k, v)]))) /\
+  step pool (OGet r x) = RVal (or_undef (spec_get es (pool_at pool x))) /\
+  step pool (OIncludes r x) = RVal (PBool (spec_has es (pool_at pool x))).
+Proof. exact (fun ops r x es H => hash_step_spec (pool_after [] ops) r x es (history_invariant ops H)). Qed.
+Print Assumptions C09_hash_operations_all_histories.
+
+(* the same per operation, on entry lists *)
+Theorem C09_merge_replaces_in_place_appends_new : forall hv oh,
+  wf_pv (PHash hv) = true -> wf_pv (PHash oh) = true ->
+  merge_entries hv oh = spec_merge hv oh /\ wf_pv (PHash (spec_merge hv oh)) = true.
+Proof. exact merge_replaces_in_place_appends_new. Qed.
+Print Assumptions C09_merge_replaces_in_place_appends_new.
+
+Theorem C09_delete_removes_exactly : forall es k, wf_pv (PHash es) = true -> wf_pv k = true ->
+  hash_delete es k = spec_delete es k.
+Proof. exact delete_removes_exactly. Qed.
+Print Assumptions C09_delete_removes_exactly.
+
+(* also when the key list names a key more than once or names absent keys *)
+Theorem C09_delete_all_removes_exactly : forall es ks,
+  wf_pv (PHash es) = true -> Forall (fun k => wf_pv k = true) ks ->
+  hash_delete_all es ks = spec_delete_all es ks.
+Proof. exact delete_all_removes_exactly. Qed.
+Print Assumptions C09_delete_all_removes_exactly.
+
+(* Get finds a value iff some key is equal, and then the value of that (only) entry *)
+Theorem C09_get_iff_present : forall es k, wf_pv (PHash es) = true -> wf_pv k = true ->
+  match hfind es k with Some i => snd (nth i es (PUndef, PUndef)) | None => PUndef end = or_undef (spec_get es k) /\
+  (forall v, spec_get es k = Some v <-> exists k', In (k', v) es /\ veq k' k = true) /\
+  (spec_get es k = None <-> forall e, In e es -> veq (fst e) k = false).
+Proof. exact get_iff_present. Qed.
+Print Assumptions C09_get_iff_present.
+
+Theorem C09_includes_iff_present : forall es k,
+  (match hfind es k with Some _ => true | None => false end) = spec_has es k /\
+  (spec_has es k = true <-> exists e, In e es /\ veq (fst e) k = true).
+Proof. exact includes_iff_present. Qed.
+Print Assumptions C09_includes_iff_present.
+
+Theorem C09_keys_values_in_order : forall pool r es, pool_at pool r = PHash es ->
+  step pool (OKeys r) = RVal (PArr (map fst es)) /\
+  step pool (OValues r) = RVal (PArr (map snd es)) /\
+  combine (map fst es) (map snd es) = es /\
+  step pool (OLen r) = RVal (PInt (Z.of_nat (length es))) /\
+  (forall i, i < length es ->
+     step pool (OAt r (Z.of_nat i)) = RVal (PEntry (nth i (map fst es) PUndef) (nth i (map snd es) PUndef))).
+Proof. exact keys_values_in_order. Qed.
+Print Assumptions C09_keys_values_in_order.
+
+(* what the abstract functions mean for later lookups: deletion removes exactly the given keys ... *)
+Theorem C09_lookup_after_delete : forall es k k', wf_pv (PHash es) = true -> wf_pv k = true -> wf_pv k' = true ->
+  spec_get (spec_delete es k) k' = if veq k' k then None else spec_get es k'.
+Proof. exact get_after_delete. Qed.
+Print Assumptions C09_lookup_after_delete.
+
+Theorem C09_lookup_after_delete_all : forall es ks k',
+  wf_pv (PHash es) = true -> Forall (fun k => wf_pv k = true) ks -> wf_pv k' = true ->
+  spec_get (spec_delete_all es ks) k' = if existsb (fun k => veq k' k) ks then None else spec_get es k'.
+Proof. exact get_after_delete_all. Qed.
+Print Assumptions C09_lookup_after_delete_all.
+
+(* ... and merging gives every key of the argument the argument's value and leaves every other key alone *)
+Theorem C09_lookup_after_merge : forall hv oh k,
+  wf_pv (PHash hv) = true -> wf_pv (PHash oh) = true -> wf_pv k = true ->
+  spec_get (spec_merge hv oh) k = match spec_get oh k with Some v => Some v | None => spec_get hv k end.
+Proof. exact get_after_merge. Qed.
+Print Assumptions C09_lookup_after_merge.
+
+(* ARRAYS are immutable sequences: every operation is a list function of the receiver's elements *)
+Theorem C09_array_operations_are_list_functions : forall pool r x l, pool_at pool r = PArr l ->
+  step pool (OAdd r x) = RVal (PArr (l ++ [pool_at pool x])) /\
+  (forall xs, elems (pool_at pool x) = Some xs -> step pool (OAddAll r x) = RVal (PArr (l ++ xs))) /\
+  step pool (ODelete r x) = RVal (PArr (filter (fun e => negb (veq e (pool_at pool x))) l)) /\
+  (forall xs, elems (pool_at pool x) = Some xs ->
+     step pool (ODeleteAll r x) = RVal (PArr (filter (fun e => negb (existsb (fun d => veq e d) xs)) l))) /\
+  (forall i j, (0 <= i <= j)%Z -> (j <= Z.of_nat (length l))%Z ->
+     step pool (OSlice r i j) = RVal (PArr (firstn (Z.to_nat (j - i)) (skipn (Z.to_nat i) l)))) /\
+  (forall i j, ~ ((0 <= i <= j)%Z /\ (j <= Z.of_nat (length l))%Z) -> step pool (OSlice r i j) = RErr EFault) /\
+  (forall i, step pool (OAt r (Z.of_nat i)) = RVal (nth i l PUndef)) /\
+  step pool (OLen r) = RVal (PInt (Z.of_nat (length l))) /\
+  (forall pd, step pool (OSelect r pd) = RVal (PArr (filter (eval_pred pool pd) l)) /\
+              step pool (OReject r pd) = RVal (PArr (filter (fun e => negb (eval_pred pool pd e)) l))) /\
+  (forall m, step pool (OMap r m) = RVal (PArr (map (eval_mapper pool m) l))) /\
+  step pool (OFlatten r) = RVal (PArr (flat_map flatten1 l)) /\
+  step pool (OUnique r) = RVal (PArr (unique_acc [] l)).
+Proof. exact array_step_spec. Qed.
+Print Assumptions C09_array_operations_are_list_functions.
+
+(* Unique keeps the first element of every class of equal elements: a sub-sequence without two equal elements
+   that still holds an equal of every element *)
+Theorem C09_unique_is_nodup_modulo_equality : forall l, Forall (fun x => wf_pv x = true) l ->
+  sublist (unique_acc [] l) l /\ nodup_keys (unique_acc [] l) = true /\
+  (forall x, In x l -> exists y, In y (unique_acc [] l) /\ veq x y = true).
+Proof. exact unique_spec. Qed.
+Print Assumptions C09_unique_is_nodup_modulo_equality.
+
+(* Flatten leaves no array / entry at the top and is idempotent *)
+Theorem C09_flatten_is_flat : forall l,
+  Forall (fun x => is_pairlike x = false) (flatten l) /\ flatten (flatten l) = flatten l.
+Proof. exact flatten_spec. Qed.
+Print Assumptions C09_flatten_is_flat.
+
+(* IMMUTABILITY at the value level: a history only ever extends the pool - no operation changes its receiver,
+   its argument or any earlier result - and what is done later does not change earlier results *)
+Theorem C09_results_never_change : forall pool ops,
+  (exists more, pool_after pool ops = pool ++ more /\ length more = length ops) /\
+  (forall i, i < length pool -> pool_at (pool_after pool ops) i = pool_at pool i).
+Proof. exact results_never_change. Qed.
+Print Assumptions C09_results_never_change.
+
+Theorem C09_earlier_results_stable : forall pool ops1 ops2,
+  run_from pool (ops1 ++ ops2) = run_from pool ops1 ++ run_from (pool_after pool ops1) ops2.
+Proof. exact run_app. Qed.
+Print Assumptions C09_earlier_results_stable.
+
+(* Non-vacuity: a concrete history with well-formed literals that merges (existing key b replaced in place by a
+   key that is equal but not identical - the entry [b] vs the array [b] - new keys appended in argument order),
+   deletes a present and an absent key, deletes a key list that names a key twice, and looks keys up. *)
+Definition s (c : N) : pv := PStr [c].
+Definition demo : list op :=
+  [OLit (PHash [(s 97, PInt 1); (PArr [s 98], PInt 2); (s 99, PInt 3)]);            (* 0: {a=>1, [b]=>2, c=>3} *)
+   OLit (PHash [(s 100, PInt 4); (PArr [s 98], PInt 9); (s 101, PInt 5)]);          (* 1: {d=>4, [b]=>9, e=>5} *)
+   OMerge 0 1;                                                                       (* 2 *)
+   OLit (s 97); ODelete 2 3; OGet 4 3; OGet 2 3;                                     (* 3..6 *)
+   OLit (PArr [s 99; s 97; s 99; s 122]); ODeleteAll 2 7;                            (* 7, 8 *)
+   OLit (PArr [s 98]); OGet 8 9; OIncludes 8 3; OKeys 8; OLen 0].                    (* 9..13 *)
+Example C09_coll_nonvacuous :
+  lits_ok demo = true /\
+  run demo =
+  [RVal (PHash [(s 97, PInt 1); (PArr [s 98], PInt 2); (s 99, PInt 3)]);
+   RVal (PHash [(s 100, PInt 4); (PArr [s 98], PInt 9); (s 101, PInt 5)]);
+   RVal (PHash [(s 97, PInt 1); (PArr [s 98], PInt 9); (s 99, PInt 3); (s 100, PInt 4); (s 101, PInt 5)]);
+   RVal (s 97);
+   RVal (PHash [(PArr [s 98], PInt 9); (s 99, PInt 3); (s 100, PInt 4); (s 101, PInt 5)]);
+   RVal PUndef; RVal (PInt 1);
+   RVal (PArr [s 99; s 97; s 99; s 122]);
+   RVal (PHash [(PArr [s 98], PInt 9); (s 100, PInt 4); (s 101, PInt 5)]);
+   RVal (PArr [s 98]); RVal (PInt 9); RVal (PBool false);
+   RVal (PArr [PArr [s 98]; s 100; s 101]); RVal (PInt 3)].
+Proof. vm_compute. auto. Qed.
+End CollHalf.
